@@ -38,6 +38,10 @@ def _curve_shapes(tier):
                         i += 1
     for p, mult, r, t in ((1, [1], 1, 1), (2, [1], 1, 1), (2, [], 2, 2), (2, [1], 2, 1), (3, [], 2, 1)):
         out.append(dict(p=p, mult=mult, r=r, t=t, rational=True, via='method'))
+    # clamped knot vectors kept as given (normalize_kv=False, symbolic range [a, b])
+    out.append(dict(p=2, mult=[1], r=2, t=2, rational=False, via='operations', norm=False))
+    out.append(dict(p=3, mult=[1], r=2, t=1, rational=False, via='method', norm=False))
+    out.append(dict(p=2, mult=[], r=1, t=1, rational=True, via='helper', norm=False))
     if tier == 'thorough':
         out.append(dict(p=3, mult=[1], r=3, t=3, rational=True, via='operations'))
         out.append(dict(p=3, mult=[1], r=1, t=1, rational=True, via='method'))
@@ -71,19 +75,19 @@ def _remove_curve(ctx, crv, via, x, t, rational):
                       'linalg.point_distance', 'operations.remove_knot', 'BSpline.Curve.remove_knot',
                       'BSpline.Curve.insert_knot', 'NURBS.Curve.ctrlptsw'],
           quick=lambda: _curve_shapes('quick'), thorough=lambda: _curve_shapes('thorough'))
-def curve_insert_remove(ctx, p, mult, r, t, rational, via):
+def curve_insert_remove(ctx, p, mult, r, t, rational, via, norm=True):
     """requires: valid clamped knot vector, x in the open domain and tol-separated from every knot, r <= p - s,
                  positive weights, u in the domain; x was inserted r times (history)
        ensures : after removing x t <= r times: evaluate(u) == C(u) of the original, kv == original + (r - t) copies,
                  size == n + r - t; t == r: control points (weights) == the original ones"""
-    U, inner, n = shapes.make_kv(ctx, p, mult)
+    U, inner, n = shapes.make_kv(ctx, p, mult, normalized=norm)
     x = shapes.param_in(ctx, 'x', U[0], U[-1], open_lo=True, open_hi=True)
     for k in [U[0]] + inner + [U[-1]]:
         ctx.assume(ctx.sep(x, k, MULT_TOL))
     u = shapes.param_in(ctx, 'u', U[0], U[-1])
     P = shapes.net(ctx, 'P', n, 2)
     W = shapes.weights(ctx, 'w', n) if rational else None
-    crv = shapes.build_curve(ctx, p, U, P, W)
+    crv = shapes.build_curve(ctx, p, U, P, W, normalize_kv=norm)
     Pw = shapes.homog(P, W)
     if rational:
         ctx.assume_pos(spec.curve_point(p, U, [[w] for w in W], u)[0], 'L.weight_function_positive')
